@@ -689,6 +689,10 @@ def _time_fancy(inp, idx):
     full = ['s', None, None, None]
     if any(i[0] == 'e' for i in rest):
         p = [j for j, i in enumerate(rest) if i[0] == 'e'][0]
+        if any(it[0] == 'i' for it in rest[:p]):
+            # an int, an Ellipsis, then the time list: the Ellipsis separates the two advanced indices even when
+            # it stands for no axis at all, and NumPy moves the indexed axes to the front (time is not last)
+            return None
         per = rest[:p] + [full] * (nd - len(cons)) + rest[p + 1:]
     else:
         per = rest + [full] * (nd - len(cons))
